@@ -744,15 +744,19 @@ func (fr *Frame) execBlock(b *ssa.BasicBlock, st *State) error {
 				return err
 			}
 			cs := c.(*Sc)
-			tS := st.clone()
-			r.assume(tS, cs.T)
-			fS := st.clone()
-			r.assume(fS, not(cs.T))
-			if err := fr.edge(b, b.Succs[0], tS); err != nil {
-				return err
+			if cs.T != "false" {
+				tS := st.clone()
+				r.assume(tS, cs.T)
+				if err := fr.edge(b, b.Succs[0], tS); err != nil {
+					return err
+				}
 			}
-			if err := fr.edge(b, b.Succs[1], fS); err != nil {
-				return err
+			if cs.T != "true" {
+				fS := st.clone()
+				r.assume(fS, not(cs.T))
+				if err := fr.edge(b, b.Succs[1], fS); err != nil {
+					return err
+				}
 			}
 		case *ssa.Jump:
 			if err := fr.edge(b, b.Succs[0], st); err != nil {
